@@ -38,7 +38,8 @@ def plan(tier):
 def required(tier):
     return ["q:inside_one_node", "q:multi_node_span", "q:on_boundaries", "q:unaligned_prefix",
             "q:unaligned_suffix", "q:gap_between_indexed", "q:haplotype_contig", "q:multi_region",
-            "q:single_indexed_node_contig", "q:nothing_expected", "search_step_probe_events"]
+            "q:single_indexed_node_contig", "q:nothing_expected", "search_step_probe_events",
+            "selection_gt_1000_records"]
 
 
 REQUIRED_PROBES = ("search_step_budget",)
@@ -64,7 +65,10 @@ def _reset_cb(frame):
 
 def setup(ctx):
     from gaftools.cli import view
-    M.PROBES.every_line(view.search, _budget_cb, "search_step_budget", on_start=_reset_cb)
+    if hasattr(view, "search"):
+        M.PROBES.every_line(view.search, _budget_cb, "search_step_budget", on_start=_reset_cb)
+    else:  # the termination monitor has nothing to attach to: the run is inconclusive (REQUIRED_PROBES)
+        M.PROBES.status["search_step_budget"] = "unattached"
 
 
 def node_sets(w, contig, a, b):
@@ -159,7 +163,9 @@ def run_case(ctx, rng, index, casedir):
     sit = collections.Counter()
     viol = []
     outcomes = collections.Counter()
-    w = VC.build(rng, casedir, index, ctx.tier, nrec=rng.choice([1, 2, 4, rng.randint(5, 30)]))
+    big_case = rng.random() < 0.02  # regions selecting well over a thousand records
+    w = VC.build(rng, casedir, index, ctx.tier, nrec=rng.randint(1300, 2600) if big_case else rng.choice([1, 2, 4, rng.randint(5, 30)]),
+                 **({"size": "small"} if big_case else {}))
     o = VC.run_index(w, None if rng.random() < 0.7 else os.path.join(casedir, "elsewhere.gvi"))
     if not o.ok:
         return {"sig": None, "nontrivial": False, "situations": {"index_failed": 1}, "violations": [],
@@ -196,6 +202,8 @@ def run_case(ctx, rng, index, casedir):
             sit["q:" + c] += 1
         if [] in acceptable:
             sit["q:nothing_expected"] += 1
+        if min(len(s) for s in acceptable) > 1000:
+            sit["selection_gt_1000_records"] += 1
         fmt = fmt_avail if (rng.random() < 0.3 and conv_lines is not None) else None
         out = os.path.join(casedir, f"r{k}.gaf")
         argv = ["view", w.gaf]
